@@ -53,6 +53,7 @@ class Config:
         self.truth_hook = None    # fn(I, value) -> bool|z3|NotImplemented
         self.log_names = {"LOGGER"}
         self.havoc_loops = False  # allow generic havoc schema for loops without a spec
+        self.ob_prefix = ""       # property prefix of engine-generated obligations (loop contracts), e.g. "C03/"
 
 
 class Frame:
@@ -416,6 +417,8 @@ class Interp:
             return self.z(v.v)
         if z3.is_expr(v):
             return v
+        if hasattr(v, "to_z3"):
+            return v.to_z3()
         raise Unsupported(f"no z3 form for {type(v).__name__}")
 
     def kind_of(self, v):
@@ -433,6 +436,8 @@ class Interp:
             return "bytes"
         if isinstance(v, ByteArr):
             return self.kind_of(v.v)
+        if hasattr(v, "sym_kind"):
+            return v.sym_kind()
         return None
 
     def eq(self, a, b):
@@ -824,6 +829,11 @@ class Interp:
                 if m is not None and m[0] == "attr":
                     ci, expr = m[1]
                     return self.eval(expr, Frame(None, ci.module))
+                if m is not None and m[0] == "method":
+                    x = m[1]
+                    return FuncRef(x) if x.is_static else FuncRef(x, v)
+                if m is not None and m[0] == "prop" and m[1].fget is not None:
+                    return self.call_func(m[1].fget, [v], {})
             child = Env(f"{v.path}.{name}", nonnull=True)
             child.data["parent"] = v
             child.data["attr"] = name
@@ -1299,7 +1309,9 @@ class Interp:
                 if self.branch(self._wrapb(z3.Or(i < -ln, i >= ln)), "idx"):
                     self.raise_("IndexError", "index out of range")
             j = z3.If(i < 0, i + ln, i)
-            return SV(z3.BV2Int(v.e[j], False), "int")
+            el = v.e[j]
+            self.assume(z3.And(el >= 0, el <= 255))      # elements of a bytes value
+            return SV(el, "int")
         if isinstance(v, SymSeq):
             i = self._num(idx, "int")
             if not self.valid(z3.And(i >= 0, i < v.length)):
@@ -1821,7 +1833,7 @@ class Interp:
     def _while_spec(self, s, fr, spec: LoopSpec):
         q = fr.fi.qualname
         k = self.loop_ordinal(fr, s)
-        base = f"{q}/loop{k}"
+        base = f"{self.cfg.ob_prefix}{q}/loop{k}"
         self.ob(f"{base}/invariant-on-entry", spec.invariant(self, fr))
         names = spec.modifies_locals if spec.modifies_locals is not None else self.assigned_names(s.body)
         for nm in names:
@@ -1878,7 +1890,7 @@ class Interp:
             raise Unsupported(f"for over symbolic sequence without loop contract in {fr.fi.qualname}")
         q = fr.fi.qualname
         k = self.loop_ordinal(fr, s)
-        base = f"{q}/loop{k}"
+        base = f"{self.cfg.ob_prefix}{q}/loop{k}"
         idx_name = f"__idx{k}"
         fr.locals[idx_name] = 0
         self.ob(f"{base}/invariant-on-entry", spec.invariant(self, fr))
